@@ -88,6 +88,16 @@ type Plan struct {
 	Config   Config    `json:"config"`
 	Setup    []SetupOp `json:"setup,omitempty"`
 	Steps    []Step    `json:"steps"`
+
+	// concurrent engine (C18 part 1)
+	Tasks     []TaskPlan `json:"tasks,omitempty"`
+	SchedSeed uint64     `json:"schedule_seed,omitempty"`
+	Slots     int        `json:"slots,omitempty"`     // a yield sleeps 1..Slots scheduling quanta
+	Stall     float64    `json:"stall,omitempty"`     // probability that a yield turns into a long stall
+	Calibrate bool       `json:"calibrate,omitempty"` // touch the deliberately racy calibration word
+
+	// upload engine (C18 part 2)
+	Upload *UploadPlan `json:"upload,omitempty"`
 }
 
 func (p *Plan) Clone() *Plan {
